@@ -1,80 +1,48 @@
 /-
-  Proofs.C17Reader — the three Go loops read a format alike when every `X` is
-  directly followed by a sized option.
+  Proofs.C17Reader — the format reader: pack and unpack read every option alike;
+  what the reader leaves of the format; the align-only flag is only ever set in
+  front of an option that has a size.
 -/
 import GoluaVerif.Proofs.C17Body
 namespace GoluaVerif.Model.Pack
 open GoluaVerif
 
-theorem alignPad_nocheck (rd : Rd) (al off pad : Nat) (h : alignPad rd true al off = .ok pad) :
-    alignPad rd false al off = .ok pad := by
-  unfold alignPad at *
-  by_cases h0 : al = 0
-  · simp only [h0, if_true] at h ⊢; exact h
-  · simp only [h0, if_false] at h ⊢
-    generalize (if al > rd.maxAlign then rd.maxAlign else al) = n at h ⊢
-    by_cases hp : isPow2 n = true
-    · simp only [hp, Bool.not_true, Bool.and_false, Bool.false_eq_true, if_false] at h ⊢; exact h
-    · simp [hp] at h
-
-theorem rd_eta (rd : Rd) (h : rd.alignOnly = false) : { rd with alignOnly := false } = rd := by
-  cases rd; simp_all
-
-/-- F3: with the align-only flag clear, or before a sized option, the unpacker reads the option as the packer does -/
-theorem readOpt_unpack_eq (rd : Rd) (c : UInt8) (rest : Bytes)
-    (h : rd.alignOnly = false ∨ alignable c = true) :
+/-- the unpacker reads an option exactly as the packer does -/
+theorem readOpt_unpack_eq (rd : Rd) (c : UInt8) (rest : Bytes) :
     readOpt .unpack rd c rest = readOpt .pack rd c rest := by
   unfold readOpt
-  unfold alignable at h
-  cases hk : optKind c <;> simp only [hk] at h ⊢ <;>
-    first
-    | rfl
-    | (rcases h with h | h
-       · first
-         | (simp [mkItem, h]; done)
-         | (simp [mkItem, h]; cases rd; simp_all)
-       · simp at h)
+  cases optKind c <;> rfl
 
-theorem noDanglingX_tail (c : UInt8) (rest : Bytes) (h : noDanglingX (c :: rest) = true) : noDanglingX rest = true := by
-  simp only [noDanglingX, Bool.and_eq_true] at h
-  exact h.2
+def digitsOf (s : Bytes) : Bytes := s.takeWhile isDigit
+def afterDigits (s : Bytes) : Bytes := s.dropWhile isDigit
+def valFrom (n : Nat) (ds : Bytes) : Nat := ds.foldl (fun a c => a * 10 + (c.toNat - 48)) n
 
-theorem getOptSize_ndx (s : Bytes) (n : Nat) (ok : Bool) (m : Nat) (ok' : Bool) (r : Bytes)
-    (h : getOptSize s n ok = .ok (m, ok', r)) (hs : noDanglingX s = true) : noDanglingX r = true := by
-  induction s generalizing n ok with
-  | nil => simp [getOptSize] at h; rw [h.2.2]; exact hs
+/-- what `getOptSize` returns when it does not overflow -/
+theorem getOptSize_spec : ∀ (s : Bytes) (n : Nat) (ok : Bool) (m : Nat) (ok' : Bool) (r : Bytes),
+    getOptSize s n ok = .ok (m, ok', r) →
+    m = valFrom n (digitsOf s) ∧ ok' = (ok || !(digitsOf s).isEmpty) ∧ r = afterDigits s := by
+  intro s
+  induction s with
+  | nil =>
+    intro n ok m ok' r h
+    simp [getOptSize] at h
+    simp [digitsOf, afterDigits, valFrom, h.1, h.2.1, h.2.2]
   | cons c cs ih =>
+    intro n ok m ok' r h
     unfold getOptSize at h
-    split at h
-    · split at h
-      · exact absurd h (by simp)
+    by_cases hd : isDigit c = true
+    · simp only [hd, if_true] at h
+      split at h
+      · simp at h
       · split at h
-        · exact absurd h (by simp)
-        · exact ih _ _ h (noDanglingX_tail c cs hs)
-    · simp at h; rw [← h.2.2]; exact hs
-
-theorem smallOptSize_ndx (s : Bytes) (d n : Nat) (r : Bytes)
-    (h : smallOptSize s d = .ok (n, r)) (hs : noDanglingX s = true) : noDanglingX r = true := by
-  unfold smallOptSize at h
-  split at h
-  · exact absurd h (by simp)
-  · rename_i hg
-    split at h
-    · simp at h; rw [← h.2]; exact getOptSize_ndx _ _ _ _ _ _ hg hs
-    · exact absurd h (by simp)
-  · rename_i hg
-    split at h
-    · simp at h; rw [← h.2]; exact getOptSize_ndx _ _ _ _ _ _ hg hs
-    · exact absurd h (by simp)
-
-theorem mustGetOptSize_ndx (s : Bytes) (n : Nat) (r : Bytes)
-    (h : mustGetOptSize s = .ok (n, r)) (hs : noDanglingX s = true) : noDanglingX r = true := by
-  unfold mustGetOptSize at h
-  split at h
-  · exact absurd h (by simp)
-  · rename_i hg
-    simp at h; rw [← h.2]; exact getOptSize_ndx _ _ _ _ _ _ hg hs
-  · exact absurd h (by simp)
+        · simp at h
+        · obtain ⟨i1, i2, i3⟩ := ih _ _ _ _ _ h
+          simp [digitsOf, afterDigits, valFrom, hd, List.takeWhile_cons, List.dropWhile_cons] at i1 i2 i3 ⊢
+          exact ⟨i1, i2, i3⟩
+    · simp only [hd, Bool.false_eq_true, if_false, Except.ok.injEq, Prod.mk.injEq] at h
+      obtain ⟨h1, h2, h3⟩ := h
+      subst h1; subst h2; subst h3
+      simp [digitsOf, afterDigits, valFrom, hd, List.takeWhile_cons, List.dropWhile_cons]
 
 /-- what the reader leaves of the format: the rest itself, or the rest after a size -/
 theorem readOpt_rest (mode : Mode) (rd rd' : Rd) (c : UInt8) (rest rest' : Bytes) (opt : Opt)
@@ -105,25 +73,23 @@ theorem readOpt_rest (mode : Mode) (rd rd' : Rd) (c : UInt8) (rest rest' : Bytes
       · exact absurd h (by simp)
       · rename_i n r hg; simp at h; exact .inr (.inl ⟨8, n, by rw [← h.2.2]; exact hg⟩)
     · exact absurd h (by simp)
+  case alignNext =>
+    split at h
+    · split at h
+      · simp only [Except.ok.injEq, Prod.mk.injEq] at h; exact .inl h.2.2.symm
+      · simp at h
+    · simp at h
   all_goals
     (cases mode <;> (try simp only at h) <;> (try split at h) <;>
       first
       | (simp only [Except.ok.injEq, Prod.mk.injEq] at h; exact .inl h.2.2.symm)
       | (simp at h))
 
-/-- F1: what is left of the format after an option still has every `X` followed by a sized option -/
-theorem readOpt_ndx (mode : Mode) (rd rd' : Rd) (c : UInt8) (rest rest' : Bytes) (opt : Opt)
-    (h : readOpt mode rd c rest = .ok (opt, rd', rest')) (hs : noDanglingX rest = true) :
-    noDanglingX rest' = true := by
-  rcases readOpt_rest mode rd rd' c rest rest' opt h with h1 | ⟨d, n, h1⟩ | ⟨n, h1⟩
-  · rw [h1]; exact hs
-  · exact smallOptSize_ndx _ _ _ _ h1 hs
-  · exact mustGetOptSize_ndx _ _ _ h1 hs
-
-/-- F2: the packer leaves the align-only flag set only right after `X`, or if it was set before an unsized option -/
+/-- the reader leaves the align-only flag set only right after an `X` that stands in front of a sized option,
+    or if it was set before an option that has no size -/
 theorem readOpt_ao (rd rd' : Rd) (c : UInt8) (rest rest' : Bytes) (opt : Opt)
     (h : readOpt .pack rd c rest = .ok (opt, rd', rest')) (hao : rd'.alignOnly = true) :
-    (optKind c = .alignNext ∧ rest' = rest) ∨ (rd.alignOnly = true ∧ alignable c = false) := by
+    (rest' = rest ∧ ∃ d t, rest = d :: t ∧ alignable d = true) ∨ (rd.alignOnly = true ∧ alignable c = false) := by
   unfold readOpt mkItem at h
   unfold alignable
   cases hk : optKind c <;> simp only [hk] at h ⊢
@@ -145,12 +111,43 @@ theorem readOpt_ao (rd rd' : Rd) (c : UInt8) (rest rest' : Bytes) (opt : Opt)
     split at h
     · exact absurd h (by simp)
     · simp at h; rw [← h.2.1] at hao; simp at hao
-  case alignNext => simp at h; exact .inl ⟨trivial, h.2.2.symm⟩
+  case alignNext =>
+    split at h
+    · rename_i d t
+      split at h
+      · rename_i hd
+        simp only [Except.ok.injEq, Prod.mk.injEq] at h
+        exact .inl ⟨h.2.2.symm, d, t, rfl, hd⟩
+      · simp at h
+    · simp at h
   all_goals first
     | (simp only [Except.ok.injEq, Prod.mk.injEq] at h; rw [← h.2.1] at hao; first
         | (simp at hao; done)
         | exact .inr ⟨hao, trivial⟩
         | (right; simpa using hao))
     | (simp at h)
+
+/-- the invariant the reader maintains by itself: the align-only flag is set only in front of a sized option -/
+def Inv (ao : Bool) (fmt : Bytes) : Prop := ao = true → ∃ d t, fmt = d :: t ∧ alignable d = true
+
+theorem inv_head (ao : Bool) (c : UInt8) (rest : Bytes) (h : Inv ao (c :: rest)) :
+    ao = false ∨ alignable c = true := by
+  cases ao with
+  | false => exact .inl rfl
+  | true =>
+    obtain ⟨d, t, he, ha⟩ := h rfl
+    injection he with h1 h2
+    subst h1
+    exact .inr ha
+
+theorem inv_step (rd rd' : Rd) (c : UInt8) (rest rest' : Bytes) (opt : Opt)
+    (hi : Inv rd.alignOnly (c :: rest)) (h : readOpt .pack rd c rest = .ok (opt, rd', rest')) :
+    Inv rd'.alignOnly rest' := by
+  intro hao
+  rcases readOpt_ao rd rd' c rest rest' opt h hao with ⟨hr, d, t, he, ha⟩ | ⟨h1, h2⟩
+  · exact ⟨d, t, by rw [hr, he], ha⟩
+  · rcases inv_head _ _ _ hi with h3 | h3
+    · rw [h1] at h3; exact absurd h3 (by simp)
+    · rw [h2] at h3; exact absurd h3 (by simp)
 
 end GoluaVerif.Model.Pack
